@@ -2,8 +2,11 @@ package main
 
 import (
 	"fmt"
+	"math/rand"
 	"os"
 )
+
+func newRand(seed int64) *rand.Rand { return rand.New(rand.NewSource(seed)) }
 
 func main() {
 	if len(os.Args) < 2 {
@@ -17,6 +20,8 @@ func main() {
 		cmdCodec(os.Args[2:])
 	case "client":
 		cmdClient(os.Args[2:])
+	case "ref":
+		cmdRef(os.Args[2:])
 	default:
 		fmt.Fprintln(os.Stderr, "unknown command", os.Args[1])
 		os.Exit(2)
